@@ -21,6 +21,7 @@
    ([r_miss]); the counter at any time is [before + r_miss].  The cantCache flag is no longer read by the
    evaluator (every miss propagates) and is not modelled.
 
+   Variadic functions (last parameter "..") and catch(e).err are modelled ([call_shape], [ECatchErr]).
    The programs are a small expression language (the generator of harness/cmd/C04 prints it as grol source);
    function literals refer to a definition table [fdef] whose [fd_key] is the REAL cache key text computed by
    object.SetCacheKey on the parsed literal.  Registers are not modelled (C05 says they are unobservable).
@@ -204,7 +205,8 @@ Inductive expr :=
 | ELog (s : bytes)                    (* log("s") *)
 | EError (s : bytes)                  (* error("s") *)
 | EExt (k : extk)
-| EDel (x : ident).                   (* del(x) *)
+| EDel (x : ident)                    (* del(x) *)
+| ECatchErr (e : expr).               (* catch(e).err *)
 
 Record fdef := mkDef {
   fd_key : bytes;                (* object.Function.CacheKey: compact print without the name *)
@@ -303,6 +305,7 @@ Definition deref (h : heap) (x : ident) (e : nat) : option value :=
 
 Definition self_name : ident := [115%N; 101%N; 108%N; 102%N].
 Definition info_name : ident := [105%N; 110%N; 102%N; 111%N].
+Definition dots_name : ident := [46%N; 46%N].       (* ".." : the variadic parameter and the array bound to it *)
 
 (* does the miss counter move?  (makeRef / Get after the repairs) *)
 Definition counted (h : heap) (x : ident) (e : nat) (obj : option value) : bool :=
@@ -473,6 +476,31 @@ Definition same_fn (cur : frame) (d envd : nat) : bool :=
   | None => false
   end.
 
+(* extendFunctionEnv, the shape of a call.  A function whose last parameter is ".." is variadic: a last argument that
+   is an array is spread (into a COPY of the argument list: the caller's list stays the cache key), the first n
+   arguments are bound to the n named parameters and the rest becomes the array "..".
+   None = wrong number of arguments. *)
+Definition is_variadic (ps : list ident) : bool :=
+  match rev ps with p :: _ => bytes_eqb p dots_name | [] => false end.
+Definition spread_last (vals : list value) : list value :=
+  match rev vals with VArr l :: rest => rev rest ++ l | _ => vals end.
+Definition call_shape (ps : list ident) (args : list (value * bool))
+  : option (list ident * list value * option value * list (value * bool)) :=
+  let vals := map fst args in
+  if is_variadic ps then
+    let n := length ps - 1 in
+    let v1 := spread_last vals in
+    if Nat.ltb (length v1) n then None
+    else
+      (* the 4th component is the caller's argument list as Cache.Set sees it afterwards: when nothing was spread,
+         "extra" aliases its tail and derefAll(extra) replaces the References in it by their values *)
+      let sargs := match rev vals with
+                   | VArr _ :: _ => args
+                   | _ => firstn n args ++ map (fun a => (fst a, false)) (skipn n args)
+                   end in
+      Some (firstn n ps, firstn n v1, Some (VArr (skipn n v1)), sargs)
+  else if Nat.eqb (length vals) (length ps) then Some (ps, vals, None, args) else None.
+
 Section WithEval.
   (* the evaluator with one unit of fuel less *)
   Variable ev : state -> nat -> expr -> res * state.
@@ -532,17 +560,22 @@ Section WithEval.
                     match nth_error (st_heap st) parent with
                     | None => (stuck_res, st)
                     | Some pf =>
-                        if negb (Nat.eqb (length args) (length (fd_params fd))) then
+                        match call_shape (fd_params fd) args with
+                        | None =>
                           (mkRes (OVal (VErr err_msg)) false [] [] [EvCall key vals [] 0 0 (VErr err_msg) [] DSetup] 0, st)
-                        else
+                        | Some (ps, pvals, dots, sargs) =>
                           let n := length (st_heap st) in
                           let newf := mkFrame [] (Some parent) (S (fr_depth pf)) (Some (d, envd)) key in
                           let st1 := set_heap st (st_heap st ++ [newf]) in
-                          match bind_params st1 n (fd_params fd) vals 0 [] with
+                          match bind_params st1 n ps pvals 0 [] with
                           | BStuck => (stuck_res, st1)
                           | BErr before tr st2 =>
                               (mkRes (OVal (VErr err_msg)) false [] [] [EvCall key vals tr before before (VErr err_msg) [] DSetup] 0, st2)
-                          | BOk before tr st2 =>
+                          | BOk before tr st2a =>
+                              let st2 := match dots with
+                                         | Some dv => set_heap st2a (set_cell (st_heap st2a) n dots_name (CVal dv))
+                                         | None => st2a
+                                         end in
                               let (rb, st3) := ev st2 n (fd_body fd) in
                               match r_oc rb with
                               | OVal v =>
@@ -555,7 +588,7 @@ Section WithEval.
                                     (mkRes (OVal v) false (r_out rb) (r_log rb) [node DErr] 0, st3)
                                   else if has_function v then
                                     (mkRes (OVal v) false (r_out rb) (r_log rb) [node DFun] 0, st3)
-                                  else if negb (key_ok args) then
+                                  else if negb (key_ok sargs) then
                                     (mkRes (OVal v) false (r_out rb) (r_log rb) [node DKey] 0, st3)
                                   else if on then
                                     (mkRes (OVal v) false (r_out rb) (r_log rb) [node DStored] 0,
@@ -565,6 +598,7 @@ Section WithEval.
                               | _ => (rb, st3)
                               end
                           end
+                        end
                     end
                 end
             end
@@ -601,7 +635,8 @@ Fixpoint eval (fuel : nat) (on : bool) (defs : list fdef) (st : state) (fr : nat
       | EVar x =>
           match get defs (st_heap st) fr x with
           | GFound v isref h' dm evs => (mkRes (OVal v) isref [] [] evs dm, set_heap st h')
-          | GNotFound => (notfound_res, st)
+          | GNotFound =>   (* evalIdentifier: identifier not found; that the name is unbound is outer state too *)
+              (mkRes (OVal (VErr err_msg)) false [] [] [EvAccess x true] 1, st)
           | GStuck => (stuck_res, st)
           end
       | EAssign x e1 =>
@@ -696,6 +731,12 @@ Fixpoint eval (fuel : nat) (on : bool) (defs : list fdef) (st : state) (fr : nat
       | EError s => (val_res (VErr s), st)
       | EExt k =>
           (mkRes (OVal (match k with XRand1 => VInt 0 | XTimePos => VBool true end)) false [] [] [EvPoison PExt] 1, st)
+      | ECatchErr e1 =>      (* catch(e).err : an error becomes a plain (cacheable) value *)
+          let (r1, st1) := ev st fr e1 in
+          match r_oc r1 with
+          | OVal v => (with_oc r1 (OVal (VBool (is_err v))) false, st1)
+          | _ => (r1, st1)
+          end
       | EDel x =>
           (* TriggerNoCache, ResetCache, Environment.Delete *)
           match del_walk (length (st_heap st)) (st_heap st) fr x with
@@ -746,7 +787,8 @@ Definition is_self (name : option ident) (x : ident) : bool :=
 Fixpoint nodup_idents (l : list ident) : bool :=
   match l with [] => true | x :: l' => negb (mem_ident x l') && nodup_idents l' end.
 Definition closed_fn (fd : fdef) : bool :=
-  forallb (fun p => negb (constant_name p) && negb (is_self (fd_name fd) p) && negb (bytes_eqb p info_name)) (fd_params fd)
+  forallb (fun p => negb (constant_name p) && negb (is_self (fd_name fd) p) && negb (bytes_eqb p info_name)
+                    && negb (bytes_eqb p dots_name)) (fd_params fd)
   && nodup_idents (fd_params fd)
   && closed_expr (is_self (fd_name fd)) (fd_params fd) (fd_body fd).
 
@@ -761,7 +803,7 @@ Definition closed_hist (defs : list fdef) : bool :=
 Fixpoint lits_ok (e : expr) : bool :=
   match e with
   | ELit v => negb (has_function v)
-  | EAssign _ a => lits_ok a
+  | EAssign _ a | ECatchErr a => lits_ok a
   | ECall f args => lits_ok f && (fix all (l : list expr) : bool := match l with [] => true | a :: l' => lits_ok a && all l' end) args
   | EArr es | EPrint es => (fix all (l : list expr) : bool := match l with [] => true | a :: l' => lits_ok a && all l' end) es
   | EBin _ a b | ESeq a b => lits_ok a && lits_ok b
